@@ -51,6 +51,12 @@ def engines():
                 for n in ["main", "props_core", "props_meta", "props_hist", "props_rtti", "props_gen"]],
         "link": SAN + ["-lrapidcheck"],
     }
+    for name in ["e4", "e5", "e6"]:
+        e[name] = {
+            "tus": [{"src": name + "/main.cpp", "name": name + "_main",
+                     "flags": SAN, "deps": ["common/*.hpp"]}],
+            "link": SAN + ["-lrapidcheck"],
+        }
     return e
 
 
@@ -220,6 +226,25 @@ prop("C02", engine="e1", rule=(
     "die by abort; non-trivial = an erroring method with a non-virtual "
     "parameter or arity >= 2"),
     quick=dict(cases=4000, size=60), thorough=dict(cases=100000, size=100))
+prop("C05", engine="e4", rule=(
+    "histories of 1..6 successive publish_vptrs calls (what update does) on "
+    "growing and shrinking sets of 0..64 ids (thorough: 0..400) from "
+    "families clustered pointers / regular strides 2^0..2^20 / high bits "
+    "only / low bits only / small integers / random 64-bit / unions, some "
+    "classes with two ids, attempt budget drawn from {100000, 1, 2, 5} "
+    "through the hook; oracle: either a hash_search_error is delivered "
+    "exactly once and nothing else, or every registered id maps to a "
+    "distinct index < hash_length and < vptrs.size() holding its class's "
+    "v-table pointer (indirect: its address; checked: control entry); "
+    "checked variant: neighbours, bit flips, unregistered family members, "
+    "0, and ids brute-forced to land on an occupied bucket or past "
+    "hash_length are all rejected with unknown_class_error carrying the id; "
+    "non-trivial = >= 2 ids and (a colliding unregistered probe was found "
+    "or the history shrinks or the budget was exhausted)"),
+    technique="property-based testing (rapidcheck) over id-set histories "
+              "with fault injection of the search budget; invariant oracle",
+    quick=dict(cases=1500, size=60),
+    thorough=dict(cases=20000, size=100, env={"VERIF_E4_MAX_IDS": "400"}))
 prop("C06", engine="e1", rule=(
     "random registries x 2..5 random permutations of class-record, method "
     "and definition registration orders (all permutations for one case in "
@@ -300,6 +325,41 @@ prop("C15", engine="e1", rule=(
     "= left out as method/definition parameter, or dynamic at position >= 2 "
     "or through a virtual_ptr"),
     quick=dict(cases=4000, size=60), thorough=dict(cases=100000, size=100))
+prop("C18", engine="e5", variants=["list", "catalogs"], rule=(
+    "(a) static_list<Node> directly: pool of 1..6 zero-initialised nodes, "
+    "sequences of push_back (node not in list), remove (node in list: "
+    "first, middle, last, only), clear, compared after every step with a "
+    "std::vector model (iteration order const and non-const, size, empty, "
+    "removed nodes have null links); every valid sequence up to length 8 "
+    "(thorough 9) on a 3-node pool is enumerated exhaustively, longer ones "
+    "on up to 6 nodes at random; (b) the policy catalogs through real "
+    "class_declaration / method / definition_info / add_function objects "
+    "constructed and destroyed in zeroed storage; non-trivial = a removal "
+    "of a middle or last element followed by a push"),
+    technique="model-based stateful property testing (rapidcheck) plus "
+              "bounded exhaustive enumeration of operation sequences",
+    quick=dict(cases=8000, size=60,
+               extra=[["--exhaustive", "8", "--nodes", "3"]]),
+    thorough=dict(cases=200000, size=100,
+                  extra=[["--exhaustive", "9", "--nodes", "3"],
+                         ["--exhaustive", "7", "--nodes", "4"]]))
+prop("C19", engine="e6", variants=["names", "types"], rule=(
+    "(a) sets of 0..8 qualified names over a tiny alphabet (a b ab abc B "
+    "a1, depth 0..4) with shared and diverging prefixes and identifiers "
+    "that are string prefixes of one another (pairs where one name is a "
+    "scope prefix of the other are outside the domain); (b) type "
+    "descriptions from a grammar of cv-qualifiers, pointers, references, "
+    "arrays, function types, std:: / yorel:: / user templates with nested "
+    "arguments, all fundamental types, user classes in namespaces; the "
+    "output is parsed: only namespace/class/} lines, balanced, and the set "
+    "of fully qualified classes declared equals the requested set (a) / "
+    "the ground-truth set of user classes (b), each once; non-trivial = "
+    "(a) >= 2 names, a nested one and two with related first components, "
+    "(b) a user class together with cv-qualifiers, templates or multi-word "
+    "fundamental types"),
+    technique="grammar-based property testing (rapidcheck) with a parser "
+              "of the emitted declarations as oracle",
+    quick=dict(cases=6000, size=60), thorough=dict(cases=200000, size=100))
 prop("C17", engine="e1", rule=(
     "random registries with random abstract flags (roots and middles "
     "biased abstract), gappy and deliberately ambiguous (duplicated) "
@@ -393,17 +453,28 @@ def check(pid, tier, seed):
 
     # 2. generated search
     nworkers = tcfg.get("workers", NCPU)
+    variants = cfg.get("variants") or [cfg.get("variant", "")]
     jobs = []
     for w in range(nworkers):
         out = os.path.join(scratch, "w%d.json" % w)
         hashes = os.path.join(scratch, "w%d.hashes" % w)
         wargs = ["--prop", pid, "--out", out, "--hashes", hashes,
                  "--max-size", str(tcfg["size"])]
-        if cfg.get("variant"):
-            wargs += ["--variant", cfg["variant"]]
+        variant = variants[w % len(variants)]
+        if variant:
+            wargs += ["--variant", variant]
         wseed = splitmix(seed, pid, tier, w)
-        jobs.append((exe, wargs, worker_env(wseed, tcfg["cases"],
-                                            tcfg["size"]),
+        env = worker_env(wseed, tcfg["cases"], tcfg["size"])
+        env.update(tcfg.get("env", {}))
+        jobs.append((exe, wargs, env, os.path.join(scratch, "w%d.log" % w)))
+    # extra jobs (bounded exhaustive enumerations): same output format
+    nextra = 0
+    for extra in tcfg.get("extra", []):
+        w = nworkers + nextra
+        nextra += 1
+        out = os.path.join(scratch, "w%d.json" % w)
+        jobs.append((exe, list(extra) + ["--out", out],
+                     worker_env(1, 1, 1),
                      os.path.join(scratch, "w%d.log" % w)))
     with cf.ThreadPoolExecutor(max_workers=NCPU) as ex:
         results = list(ex.map(run_worker, jobs))
@@ -411,6 +482,7 @@ def check(pid, tier, seed):
     total = dict(evaluations=0, nontrivial=0, inconclusive=0)
     classes, excluded, samples, failures = {}, {}, [], []
     all_hashes = set()
+    extra_distinct = 0
     crashed = []
     for w, (rc, dt) in enumerate(results):
         out = os.path.join(scratch, "w%d.json" % w)
@@ -421,6 +493,8 @@ def check(pid, tier, seed):
             r = json.load(f)
         for k in total:
             total[k] += r.get(k, 0)
+        if w >= nworkers:
+            extra_distinct += r.get("distinct_nontrivial", 0)
         for k, v in r.get("classes", {}).items():
             classes[k] = classes.get(k, 0) + v
         for k, v in r.get("excluded", {}).items():
@@ -436,7 +510,20 @@ def check(pid, tier, seed):
 
     # 3. workers that died (sanitizer abort, signal): re-run with case
     #    tracing to recover the case, then shrink it structurally
+    exhaustive_parts = []
+    for w in range(nworkers, nworkers + nextra):
+        out = os.path.join(scratch, "w%d.json" % w)
+        if os.path.exists(out):
+            with open(out) as f:
+                r = json.load(f)
+            exhaustive_parts.append({"what": r.get("variant"),
+                                     "sequences": r.get("evaluations"),
+                                     "complete": r.get("exhaustive", False)})
     for w in crashed:
+        if w >= nworkers:
+            failures.append({"property": pid, "case": None,
+                             "message": "extra job %d died" % w})
+            continue
         exe_, wargs, env, log = jobs[w]
         trace = os.path.join(scratch, "w%d.trace.json" % w)
         subprocess.run([exe_] + wargs + ["--trace", trace], env=env,
@@ -489,7 +576,7 @@ def check(pid, tier, seed):
         "level": "exploration",
         "coverage": {
             "evaluations": total["evaluations"] + replayed,
-            "distinct_nontrivial": len(all_hashes),
+            "distinct_nontrivial": len(all_hashes) + extra_distinct,
             "nontrivial_total": total["nontrivial"],
             "rule": cfg["rule"],
             "samples": samples[:4],
@@ -501,6 +588,7 @@ def check(pid, tier, seed):
             "workers": nworkers,
             "cases_per_worker": tcfg["cases"],
             "exhaustive": False,
+            "exhaustive_parts": exhaustive_parts,
         },
         "assumptions": cfg.get("assumptions", [
             "the reference model of DESIGN.md section 3 states the documented "
@@ -518,7 +606,8 @@ def check(pid, tier, seed):
     for line in known_lines:
         print(line)
     print("%s %s: %d cases, %d distinct non-trivial, %d replays, %.0fs" % (
-        pid, tier, total["evaluations"], len(all_hashes), replayed, wall))
+        pid, tier, total["evaluations"], len(all_hashes) + extra_distinct,
+        replayed, wall))
     if violations:
         for path, msg in violations:
             print("VIOLATION property=%s replay=%s" % (pid, path))
@@ -585,7 +674,16 @@ def write_manifest():
              "kind_free_text": "synthetic registries: run-time generated "
              "class graphs, methods and definitions fed to the real compiler "
              "and dispatch templates under 12 policy configurations; "
-             "rapidcheck-driven, brute-force reference model"}],
+             "rapidcheck-driven, brute-force reference model"},
+            {"name": "e4", "path": "harness/e4", "serves_properties": ["C05"],
+             "kind_free_text": "hash facets and v-table pointer vector "
+             "driven directly over generated id-set histories"},
+            {"name": "e5", "path": "harness/e5", "serves_properties": ["C18"],
+             "kind_free_text": "static_list and the policy catalogs against "
+             "a vector model; bounded exhaustive + random sequences"},
+            {"name": "e6", "path": "harness/e6", "serves_properties": ["C19"],
+             "kind_free_text": "forward-declaration writer over generated "
+             "name sets and grammar-built type descriptions"}],
         "checks": checks,
         "not_applicable": na,
         "notes": "See DESIGN.md. known_findings.json lists genuine defects "
@@ -595,7 +693,7 @@ def write_manifest():
 
 
 NOT_YET = {}
-HOOK_COMMITS = []
+HOOK_COMMITS = ["af6e03a"]
 
 
 def main():
